@@ -35,6 +35,7 @@ type SessState struct {
 	CPSEID uint64
 	UPSEID uint64
 	Live   bool
+	NodeID string // the peer's Node ID when the session was established (the label of its unit in the gauge)
 	PDRs   []model.PDR // in creation order
 	FARs   []model.FAR
 	QERs   []model.QER
@@ -278,7 +279,7 @@ func (r *Runner) Exec(op model.Op) *Obs {
 		}
 		r.request(o, p, model.Establishment(op.Seq, nid, op.CPSEID, p.IP, op))
 		if o.Accepted {
-			s := &SessState{Idx: op.Sess, Peer: op.Peer, CPSEID: op.CPSEID, Live: true,
+			s := &SessState{Idx: op.Sess, Peer: op.Peer, CPSEID: op.CPSEID, Live: true, NodeID: nid,
 				ChosenTEID: map[uint16]uint32{}, ChosenN3: map[uint16]string{}, AllocUE: map[uint16]string{},
 				PDRApp: map[uint16][]string{}}
 			if er, ok := o.Resp.(*message.SessionEstablishmentResponse); ok {
